@@ -18,8 +18,9 @@ from xh.taxo import fork_int, NoTracing
 
 P = json.loads(os.environ.get('XH_PARAMS', '{}') or '{}')
 KS = KmerSpec(9, 'AT')          # pre-computed signature files and the database use non-default parameters
-NAMES = ['g0.fasta', 'dir/g1.fa.gz', 'g2', 'x/y/g3.fna', 'g4.fa', 'g5.ffn.gz']
-LABELS = ['g0', 'g1', 'g2', 'g3', 'g4', 'g5']
+# labels are free text: one holds a comma and a double quote, one a comma only (CSV quoting is part of "labels every cell correctly")
+NAMES = ['g0.fasta', 'dir/g1.fa.gz', 'g2, "two"', 'x/y/g3.fna', 'E. coli, K-12 g4.fa', 'g5.ffn.gz']
+LABELS = ['g0', 'g1', 'g2, "two"', 'g3', 'E. coli, K-12 g4', 'g5']
 # six genomes with pairwise distances that are not all distinct and include 0 (identical genomes) and 1 (disjoint)
 SIGS = [np.array(x, dtype='u4') for x in ([1, 2, 3, 4], [1, 2, 3, 4], [3, 4, 5, 6, 7, 8], [100, 200], [], [2, 4, 6, 8, 100])]
 
@@ -95,18 +96,21 @@ def _dist_concrete(qsrc, rsrc, nq, nr, qp, rp):
     finally:
         cdist.load_signatures, cdist.calc_file_signatures, cdist.omp_set_num_threads = saved
     text = out.getvalue()
+    import csv
+    rows_ = list(csv.reader(io.StringIO(text, newline='')))       # independent reading of the CSV (stdlib), before the repository's own loader
+    if not rows_ or rows_[0][1:] != [str(x) for x in rlabels] or [r_[0] for r_ in rows_[1:]] != [str(x) for x in qlabels] or any(len(r_) != len(rlabels) + 1 for r_ in rows_):
+        return False, f'CSV read by the csv module: header {rows_[:1]}, row labels {[r_[:1] for r_ in rows_[1:]]}, row lengths {[len(r_) for r_ in rows_]}; expected columns {rlabels}, rows {qlabels}'
     values, row_ids, col_ids = load_dmat_csv(io.StringIO(text, newline=''))
     if row_ids != [str(x) for x in qlabels] or col_ids != [str(x) for x in rlabels]:
         return False, f'labels rows {row_ids} cols {col_ids}, expected {qlabels} / {rlabels}'
-    lines = text.replace('\r\n', '\n').strip('\n').split('\n')
     for i, qn in enumerate(qnames):
-        cells = lines[1 + i].split(',')[1:]
+        cells = rows_[1 + i][1:]
         for j, rn in enumerate(rnames):
             want = format(jaccarddist(sig_for(qn), sig_for(rn, shifted=(rsrc == 1))), '0.4f')
             if cells[j] != want:
                 return False, f'cell ({qn},{rn}) is {cells[j]}, expected {want}'
             if rsrc == 4:
-                if (i == j and float(cells[j]) != 0.0) or cells[j] != lines[1 + j].split(',')[1:][i]:
+                if (i == j and float(cells[j]) != 0.0) or cells[j] != rows_[1 + j][1:][i]:
                     return False, 'square matrix not symmetric / diagonal not zero'
     return True, None
 
